@@ -144,6 +144,65 @@ def handleProg (fields : List SExp) : String :=
       s!"M {model} ;; S {spec} ;; V {sched}"
   | _ => "bad-request no-stmts"
 
+def showBanner : Banner → String
+  | .halted => "halted"
+  | .timedOut n => s!"timedout:{n}"
+  | .error => "error"
+  | .between _ => "between"
+
+def optNat : Option Nat → String
+  | some n => s!"{n}"
+  | none => "-"
+
+/-- the specification of a run: cycle until the status is neither AOK (1) nor BUB (0) or the budget is used up -/
+def specRun (d : Spec.Design) (timeout : Nat) : Nat → Nat → Spec.MState → Option (Nat × Spec.MState)
+  | 0, n, m => some (n, m)
+  | fuel+1, n, m =>
+    let st := (m.status.getD 1)
+    if (st != 1 && st != 0) || n ≥ timeout then some (n, m)
+    else match Spec.cycle d m with
+      | some (_, m') => specRun d timeout fuel (n + 1) m'
+      | none => none
+
+def handleRun (fields : List SExp) : String :=
+  let fl := decodeFlags (field fields "flags")
+  let cls := decodeCls (field fields "cls")
+  let timeout := natField fields "timeout" 0
+  match field fields "stmts" with
+  | [st] =>
+    match decodeStmts st with
+    | none => "bad-request undecodable-stmts"
+    | some stmts =>
+      let model : String :=
+        match Program.new fl cls {} y86FixedFunctions stmts with
+        | .error ds => "rej " ++ showDiags ds
+        | .ok p =>
+          match State.init p (memOf fields) with
+          | .error e => "run init-error " ++ showErr e
+          | .ok s0 =>
+            match runLoop fl p timeout (timeout + 2) s0 with
+            | none => "run FUEL-EXHAUSTED"
+            | some (.error e) => "run error=" ++ showErr e
+            | some (.ok t) =>
+              let (c, e) := reportLines t timeout
+              s!"run cycles={t.cycle} banner={showBanner (banner t timeout)} cyclesrun={optNat c} errorcode={optNat e}"
+      let fs := Spec.faults fl cls.isLower cls.isUpper stmts
+      let spec : String :=
+        if !fs.isEmpty then "rej" else
+        let d := Spec.design stmts
+        let image : List (Nat × Nat) := (pairList (field fields "mem")).filterMap fun p =>
+          match p.1.toNat?, p.2.toNat? with | some a, some b => some (a, b) | _, _ => none
+        match specRun d timeout (timeout + 2) 0 (Spec.initialState d image) with
+        | none => "run error=DivideByZero"
+        | some (n, m) =>
+          let st := m.status.getD 1
+          -- the report: halted when the last Stat is HLT, otherwise timed out when the budget is used up, otherwise error + code
+          if st == 2 then s!"run cycles={n} banner=halted cyclesrun={if n ≥ timeout then "-" else s!"{n}"} errorcode=-"
+          else if n ≥ timeout then s!"run cycles={n} banner=timedout:{n} cyclesrun=- errorcode=-"
+          else s!"run cycles={n} banner=error cyclesrun={n} errorcode={st}"
+      s!"M {model} ;; S {spec}"
+  | _ => "bad-request no-stmts"
+
 def handle (line : String) : String :=
   match SExp.parse line with
   | none => "bad-request unparsable"
@@ -151,6 +210,7 @@ def handle (line : String) : String :=
     match e.tagged? with
     | some ("graph", fields) => handleGraph fields
     | some ("prog", fields) => handleProg fields
+    | some ("run", fields) => handleRun fields
     | some (t, _) => s!"bad-request unknown-tag {t}"
     | none => "bad-request no-tag"
 
